@@ -1,6 +1,7 @@
 package main
 
 import (
+	"encoding/json"
 	"os"
 	"path/filepath"
 	"sort"
@@ -31,6 +32,27 @@ func sortedFuncs(d core_domain.CodeDataStruct) core_domain.CodeDataStruct {
 		return sxOfFunc(fs[i]).String() < sxOfFunc(fs[j]).String()
 	})
 	d.Functions = fs
+	return d
+}
+
+// deepSorted orders the functions of a node, of its inner structures and of the inner structures of its
+// functions (all of them come out of Go maps)
+func deepSorted(d core_domain.CodeDataStruct) core_domain.CodeDataStruct {
+	d = sortedFuncs(d)
+	fs := append([]core_domain.CodeFunction{}, d.Functions...)
+	for i := range fs {
+		inner := append([]core_domain.CodeDataStruct{}, fs[i].InnerStructures...)
+		for j := range inner {
+			inner[j] = deepSorted(inner[j])
+		}
+		fs[i].InnerStructures = inner
+	}
+	d.Functions = fs
+	inner := append([]core_domain.CodeDataStruct{}, d.InnerStructures...)
+	for j := range inner {
+		inner[j] = deepSorted(inner[j])
+	}
+	d.InnerStructures = inner
 	return d
 }
 
@@ -100,6 +122,22 @@ func init() {
 					}
 					outs = append(outs, keyedModel(nodes))
 				}
+			case "fullw":
+				// unconventional files (nested, anonymous, enum, record types ...): no model; the whole entry,
+				// serialised, keyed by its file
+				var sel []string
+				for _, i := range r.Nth(1).Items() {
+					sel = append(sel, filepath.Join(dir, files[i.Int()].Nth(0).Str()))
+				}
+				rows := []Sx{}
+				for _, i := range r.Nth(1).Items() {
+					rows = append(rows, L(A(files[i.Int()].Nth(0).Str()), A("selected")))
+				}
+				for _, n := range relativise(fullApp.AnalysisFiles(idents0, sel), dir) {
+					data, _ := json.Marshal(deepSorted(n))
+					rows = append(rows, L(A(n.FilePath), A(string(data))))
+				}
+				outs = append(outs, L(rows...))
 			case "bs":
 				sub, _ := subset(r.Nth(1).Items())
 				app := bs.NewBadSmellApp()
